@@ -1021,9 +1021,13 @@ fn parent<P: Property>(tier: Tier) -> i32 {
     let mut witness_notes: Vec<Value> = vec![];
     let mut inconclusive: Vec<String> = vec![];
 
+    // The self-check compares harness components with each other and, for some properties, with
+    // the library (e.g. the run-time serde impls against derived types through to_string /
+    // from_str). When it fails the run is inconclusive at best - but the cases are still run: if
+    // the cause is a defect of the tree under test they report it, and a violation wins.
     if let Err(e) = P::selfcheck() {
         eprintln!("internal: harness self-check failed: {e}");
-        return 2;
+        inconclusive.push(format!("harness self-check failed: {e}"));
     }
 
     // 1. known findings: replay the committed witnesses
